@@ -162,6 +162,22 @@ theorem dft2_eq_defining_sum (f : Arr ℂ) (αr αc : ℝ) (M N : ℤ) (shr shc 
     ring
   rw [this]
 
+/-- **an accepted buffer ends up holding the defining sum.** Composition of the `out=` clause with the defining-sum clause: for a
+buffer `dft2`'s guard and `np.dot(out=)` accept (`dft2_out_accepted_iff`), whatever it held before, the call returns the buffer
+and its sample `[u, v]` afterwards is `Σ_x Σ_y f[x,y]·exp(−2πi(αr·X·U + αc·Y·V))` times `√|αr αc|` when unitary — the same
+value a fresh allocation gets, for every shape, sampling, shift, offset and flag. -/
+theorem dft2_out_buffer_holds_defining_sum (f : Arr ℂ) (αr αc : ℝ) (M N : ℤ) (shr shc : ℝ) (offr offc : ℤ) (unitary : Bool)
+    (b : OutBuf ℂ) (hc : b.dtype.canCastComplex = true) (ha : dotAccepts b M N = true) :
+    ∃ F : Arr ℂ, dft2Out f αr αc M N shr shc offr offc unitary (some b) = OutCall.ok F (some F) true ∧
+      ∀ u v : ℤ, F.get u v =
+        (if unitary then ((Real.sqrt |αr * αc| : ℝ) : ℂ) else 1) *
+        ∑ x ∈ range f.s0.toNat, ∑ y ∈ range f.s1.toNat, f.get x y *
+          Complex.exp (-(2 * Real.pi * Complex.I) *
+            ((αr * (((x : ℤ) - f.s0 / 2 + offr : ℤ) : ℝ) * (((u - M / 2 : ℤ) : ℝ) - shr)
+              + αc * (((y : ℤ) - f.s1 / 2 + offc : ℤ) : ℝ) * (((v - N / 2 : ℤ) : ℝ) - shc) : ℝ) : ℂ)) :=
+  ⟨dft2 f αr αc M N shr shc offr offc unitary, (dft2_out_buffer f αr αc M N shr shc offr offc unitary b).2.2.1 hc ha,
+    fun u v => dft2_eq_defining_sum f αr αc M N shr shc offr offc unitary u v⟩
+
 /-- **linearity (sum).** The transform of a pointwise sum of two arrays of one shape is the sum of the transforms. -/
 theorem dft2_add (f g : Arr ℂ) (h0 : g.s0 = f.s0) (h1 : g.s1 = f.s1) (αr αc : ℝ) (M N : ℤ) (shr shc : ℝ)
     (offr offc : ℤ) (unitary : Bool) (u v : ℤ) :
